@@ -105,6 +105,23 @@ fn default_mass() -> Option<String> {
 fn matrix_dense_model() -> Option<String> {
     let r = std::panic::catch_unwind(|| { let m = Matrix::square(2); m[(0, 0)] + m[(1, 1)] });
     if r.is_err() { return Some("Matrix::square(2)[(0,0)] panics".to_string()); }
+    // every banded shape, also with ml + mu + 1 > n: every entry readable, in-band writes land exactly where addressed
+    for n in 1..=6usize { for ml in 0..n { for mu in 0..n {
+        let r = std::panic::catch_unwind(|| {
+            let mut m = Matrix::banded(n, ml, mu);
+            let mut dense = vec![vec![0.0f64; n]; n];
+            for i in 0..n { for j in 0..n { if j + ml >= i && i + mu >= j { let v = (1 + i * n + j) as f64; m[(i, j)] = v; dense[i][j] = v; } } }
+            for i in 0..n { for j in 0..n { if m[(i, j)] != dense[i][j] { return Some((i, j, m[(i, j)], dense[i][j])); } } }
+            let id = { let mut q = Matrix::banded(n, ml, mu); for i in 0..n { q[(i, i)] = 1.0; } q };
+            if !id.is_identity() { return Some((usize::MAX, 0, 0.0, 1.0)); }
+            None
+        });
+        match r {
+            Err(_) => return Some(format!("Matrix::banded({}, {}, {}): reading or writing an entry inside the band panics", n, ml, mu)),
+            Ok(Some((i, j, got, want))) => return Some(if i == usize::MAX { format!("Matrix::banded({}, {}, {}) holding the identity: is_identity() is false", n, ml, mu) } else { format!("Matrix::banded({}, {}, {}): entry ({}, {}) reads {} after writing the dense model's {}", n, ml, mu, i, j, got, want) }),
+            Ok(None) => {}
+        }
+    } } }
     None
 }
 
@@ -679,8 +696,11 @@ fn sol_at_every_sample() -> Option<String> {
         let x0 = -2.0 + 4.0 * rnd(); let span = 0.2 + 8.0 * rnd(); let xe = if rnd() < 0.5 { x0 - span } else { x0 + span };
         let m = [Method::RK4, Method::RK23, Method::DOPRI5, Method::DOP853, Method::RADAU, Method::BDF][trial % 6].clone();
         let rt = 10f64.powf(-3.0 - 6.0 * rnd());
-        if let Ok(s) = solve_ivp(&Osc, x0, xe, &[1.0, 0.0], Options::builder().method(m.clone()).rtol(rt).atol(rt * 1e-3).dense_output(true).build()) {
+        let mut o = Options::builder().method(m.clone()).rtol(rt).atol(rt * 1e-3).dense_output(true).build();
+        if m == Method::RK4 && trial % 12 == 0 { o.first_step = Some(0.3 * (xe - x0).signum()); }   // a step that does not divide the interval: the last one is clipped
+        if let Ok(s) = solve_ivp(&Osc, x0, xe, &[1.0, 0.0], o) {
             if s.status != Status::Success { continue; }
+            if let Some((_, b)) = s.sol_span() { let last = *s.t.last().unwrap(); if (b - last).abs() > 1e-9 * (1.0 + last.abs()) { return Some(format!("{:?} on [{:e}, {:e}]: the last reported time is {:e}, sol_span ends at {:e}", m, x0, xe, last, b)); } }
             for (i, t) in s.t.iter().enumerate() {
                 match s.sol(*t) {
                     Err(e) => return Some(format!("{:?} on [{:e}, {:e}], rtol {:.1e}: sol(t) at the reported sample {} of {} (t = {:e}) fails with {:?}; sol_span = {:?}", m, x0, xe, rt, i, s.t.len() - 1, t, e, s.sol_span())),
@@ -935,14 +955,17 @@ fn negative_time_blowup() -> Option<String> {
     use std::sync::mpsc; use std::time::Duration;
     struct Blow; impl IVP for Blow { fn ode(&self, _t: f64, y: &[f64], d: &mut [f64]) { d[0] = y[0] * y[0]; } }
     struct Nan; impl IVP for Nan { fn ode(&self, t: f64, _y: &[f64], d: &mut [f64]) { d[0] = (-1.0 - t).sqrt(); } }
+    struct Circle; impl IVP for Circle { fn ode(&self, t: f64, _y: &[f64], d: &mut [f64]) { d[0] = (1.0 - t * t).sqrt(); } }
+    struct LogY; impl IVP for LogY { fn ode(&self, _t: f64, y: &[f64], d: &mut [f64]) { d[0] = y[0].ln() - 1.0; } }
     for m in [Method::RK23, Method::DOPRI5, Method::DOP853, Method::RADAU, Method::BDF] {
-        for which in 0..2 {
+        for which in 0..4 {
             let (tx, rx) = mpsc::channel(); let mm = m.clone();
             std::thread::spawn(move || {
-                let r = if which == 0 { solve_ivp(&Blow, -2.0, 0.0, &[1.0], Options::builder().method(mm).build()) } else { solve_ivp(&Nan, -2.0, 0.0, &[0.0], Options::builder().method(mm).build()) };
+                let r = match which { 0 => solve_ivp(&Blow, -2.0, 0.0, &[1.0], Options::builder().method(mm).build()), 1 => solve_ivp(&Nan, -2.0, 0.0, &[0.0], Options::builder().method(mm).build()),
+                    2 => solve_ivp(&Circle, 0.0, 2.0, &[0.0], Options::builder().method(mm).build()), _ => solve_ivp(&LogY, 0.0, 5.0, &[1.0], Options::builder().method(mm).build()) };
                 let _ = tx.send(r.map(|s| (s.status, s.y.iter().all(|v| v.iter().all(|c| c.is_finite())))));
             });
-            let what = if which == 0 { "y' = y^2, y(-2) = 1 on [-2, 0] (blow-up at t = -1)" } else { "y' = sqrt(-1 - t) on [-2, 0] (NaN for t > -1)" };
+            let what = match which { 0 => "y' = y^2, y(-2) = 1 on [-2, 0] (blow-up at t = -1)", 1 => "y' = sqrt(-1 - t) on [-2, 0] (NaN for t > -1)", 2 => "y' = sqrt(1 - t^2) on [0, 2] (NaN for t > 1)", _ => "y' = ln(y) - 1, y(0) = 1 on [0, 5] (NaN once y < 0)" };
             match rx.recv_timeout(Duration::from_secs(20)) {
                 Err(_) => return Some(format!("{:?}: {}: solve_ivp did not return within 20 s", m, what)),
                 Ok(Ok((st, finite))) => { if st == Status::Success && !finite { return Some(format!("{:?}: {}: Success with non-finite states", m, what)); } }
@@ -1407,6 +1430,29 @@ fn dae_constraint() -> Option<String> {
     None
 }
 
+/// C06 / C07 (BDF history): with many step-size changes the difference table must keep describing the same polynomial: the dense output
+/// stays continuous across steps and as accurate as the step end points
+fn bdf_rescaling_accuracy() -> Option<String> {
+    struct P; impl IVP for P { fn ode(&self, t: f64, y: &[f64], d: &mut [f64]) { d[0] = -2.0 * (y[0] - (3.0 * t).sin()) + 3.0 * (3.0 * t).cos(); }
+        fn jac(&self, _t: f64, _y: &[f64], j: &mut ivp::matrix::Matrix) { j[(0, 0)] = -2.0; } }   // y = sin(3t) + e^{-2(t - x0)} (y0 - sin(3 x0))
+    for &(x0, xe) in &[(0.0f64, 6.0f64), (6.0, 0.0)] {
+        for &rt in &[1e-5f64, 1e-7] {
+            let y0 = (3.0 * x0).sin() + 0.5;
+            let s = match solve_ivp(&P, x0, xe, &[y0], Options::builder().method(Method::BDF).rtol(rt).atol(rt * 1e-2).dense_output(true).build()) { Ok(s) => s, Err(e) => return Some(format!("BDF: {:?}", e)) };
+            if s.status != Status::Success { continue; }
+            let exact = |t: f64| (3.0 * t).sin() + 0.5 * (-2.0 * (t - x0)).exp();
+            let node_err = s.t.iter().zip(s.y.iter()).map(|(t, y)| (y[0] - exact(*t)).abs() / (1.0 + exact(*t).abs())).fold(0.0, f64::max);   // relative: the backward run grows like e^{12}
+            let mut worst = (0.0f64, 0.0f64);
+            for w in s.t.windows(2) { for k in 1..8 { let t = w[0] + (w[1] - w[0]) * k as f64 / 8.0; if let Ok(v) = s.sol(t) { let e = (v[0] - exact(t)).abs() / (1.0 + exact(t).abs()); if e > worst.0 { worst = (e, t); } } } }
+            if node_err > 2000.0 * rt { return Some(format!("BDF on [{}, {}], rtol {:e} ({} steps, {} rejected): the largest error at a step end point is {:e}", x0, xe, rt, s.naccpt, s.nrejct, node_err)); }
+            if worst.0 > 20.0 * node_err.max(rt) {
+                return Some(format!("BDF on [{}, {}], rtol {:e} ({} steps, {} rejected): the dense output is off by {:e} at t = {:e}; the largest error at a step end point is {:e}", x0, xe, rt, s.naccpt, s.nrejct, worst.0, worst.1, node_err));
+            }
+        }
+    }
+    None
+}
+
 fn main() {
     let which = std::env::args().nth(1).unwrap_or_default();
     let r = match which.as_str() {
@@ -1417,6 +1463,7 @@ fn main() {
         "default_mass" => default_mass(),
         "matrix_dense_model" => matrix_dense_model(),
         "lu_small" => lu_small(),
+        "bdf_rescaling_accuracy" => bdf_rescaling_accuracy(),
         "time_reflection_stiff" => time_reflection_stiff(),
         "dae_constraint" => dae_constraint(),
         "event_at_step_start_state" => event_at_step_start_state(),
